@@ -1333,7 +1333,7 @@ fn tpl_oracle(c: &TplCase, cl: &mut u64) -> Result<(), Failure> {
 }
 
 pub fn run_all(ctx: &mut Ctx, replay: Option<&Path>) {
-    ctx.rule("log: case = (0-6 rules of trigger x extractor, logger placement {loop body, before+after the loop, twice per pass, inside a branch, inside a scope}, 0-12 iterations, which source states exist, whether one more rule is registered by a component calling configure_log from inside a scope before the loop, whether the finished log is handed to a second run through init_state - which must then hold the steps of both runs); triggers: always / never / every-n / scripted / change-of (at most one) / And-Or-Not of those; extractors: five harness lenses (two share a name), the iteration counter, evaluations, with_common, the size of the current population while two populations of different size are on the stack, best objective value (finite, or +inf for an infeasible best individual: null in JSON, inf in CBOR), a lens on a state that is never inserted. A reference model predicts the exact sequence of steps and entries; compared with the in-memory log (order preserving), the JSON export expanded through its name table, and the CBOR export; non-trivial = >= 3 steps with a duplicate name and a missing source. export: generated configuration trees over control flow and a catalogue of 38 shipped components (incl. the Linear / Polynomial mappings over lenses of generic state types: progress of the iteration counter vs. progress of the evaluation counter) / 4 conditions with numeric parameters: RON serialisation succeeds, the recorded serde structure has every component under its struct name with its parameter values and the state types its lenses read in its nesting position, a structural or parameter edit changes the RON text, clone and rebuild give identical text; non-trivial = >= 6 nodes and depth >= 3. templates: all 21 with two parameter draws: to_ron writes the same text as the in-memory serialisation, different parameters / iteration bounds give different text; distinct by case");
+    ctx.rule("log: case = (0-6 rules of trigger x extractor, logger placement {loop body, before+after the loop, twice per pass, inside a branch, inside a scope}, 0-12 iterations, which source states exist, whether one more rule is registered by a component calling configure_log from inside a scope before the loop, whether the finished log is handed to a second run through init_state - which must then hold the steps of both runs); triggers: always / never / every-n / scripted / change-of (at most one) / LessThanN over the iteration counter (which writes the progress state that with_common logs: every entry holds the value at the moment ITS rule fired) / And-Or-Not of those; occasionally a block of 250-330 rules with distinct entry names (name table of the exports beyond 256 entries); extractors: five harness lenses (two share a name), the iteration counter, evaluations, with_common, the size of the current population while two populations of different size are on the stack, best objective value (finite, or +inf for an infeasible best individual: null in JSON, inf in CBOR), a lens on a state that is never inserted. A reference model predicts the exact sequence of steps and entries; compared with the in-memory log (order preserving), the JSON export expanded through its name table, and the CBOR export; non-trivial = >= 3 steps with a duplicate name and a missing source. export: generated configuration trees over control flow and a catalogue of 38 shipped components (incl. the Linear / Polynomial mappings over lenses of generic state types: progress of the iteration counter vs. progress of the evaluation counter) / 4 conditions with numeric parameters: RON serialisation succeeds, the recorded serde structure has every component under its struct name with its parameter values and the state types its lenses read in its nesting position, a structural or parameter edit changes the RON text, clone and rebuild give identical text; non-trivial = >= 6 nodes and depth >= 3. templates: all 21 with two parameter draws: to_ron writes the same text as the in-memory serialisation, different parameters / iteration bounds give different text; distinct by case");
     ctx.assume("loggers are only placed in configurations that contain a loop (the iteration entry needs the counter)");
     ctx.assume("not part of the serialisation by documentation: Debug closures, Scope function pointers, identifier type parameters held in plain PhantomData");
     ctx.assume("at most one change-of trigger per log configuration (their `previous value` state is shared per value type)");
